@@ -56,7 +56,7 @@ def c01(D, h):
     return bad
 
 # ---------------------------------------------------------------------------------------- C02
-def wf_problems(h):
+def wf_problems(h, literal=False):
     """the predicate WF of the Lean development, evaluated on pyham's objects"""
     bad = []
     o = ob.Obs()
@@ -93,7 +93,9 @@ def wf_problems(h):
                 per[id(c.genome)].append(c)
             for cs in per.values():
                 unfl = [c for c in cs if c.arose_by_duplication == False]    # noqa: E712
-                if len(cs) > 1 and unfl:
+                if len(cs) > 1 and unfl and (not literal or len(unfl) < len(cs)):
+                    # (literal: only the case the event clauses of C02 exclude -- a flagged and an unflagged child share
+                    # a branch; several unflagged children on one branch violate the paralog discipline only)
                     bad.append('several children of %s at one child taxon, not all from a duplication' % nodekey(n))
                 if len(set(id(c.arose_by_duplication) for c in cs if c.arose_by_duplication != False)) > 1:  # noqa
                     bad.append('two duplication events of %s on one branch' % nodekey(n))
@@ -382,9 +384,11 @@ def c10(D, h):
     except Exception as e:      # noqa
         return ['whole-dataset tree profile raised %s' % type(e).__name__]
     acc = collections.defaultdict(collections.Counter)
-    for tid, top in h.get_dict_top_level_hogs().items():
+    # every per-family profile is built first and kept (as a user summing them would), then read
+    held = [(tid, top, h.create_tree_profile(hog=top)) for tid, top in h.get_dict_top_level_hogs().items()]
+    for tid, top, tph in held:
         root = pathof(top.genome.taxon)
-        tm = h.create_tree_profile(hog=top).treemap
+        tm = tph.treemap
         acc[root]['gain'] += 1
         # correctness of the per-family numbers, from the family's own nodes
         per = collections.defaultdict(list)
